@@ -92,6 +92,19 @@ func (r valT) get() string {
 func (r valT) put(x string) {
 	enter()
 }
+
+type gbox[T any] struct {
+	s string
+	z T
+}
+
+func (r gbox[T]) get() string {
+	enter()
+	return r.s
+}
+func (r gbox[T]) put(x string) {
+	enter()
+}
 '''
 
 
@@ -326,7 +339,12 @@ class Prog:
                 for m in ("get", "put"):
                     if l.startswith("func %s %s(" % (recv, m)):
                         decl["%s.%s" % (tn, m)] = i
+            for m in ("get", "put"):
+                if l.startswith("func (r gbox[T]) %s(" % m):
+                    decl["gboxS.%s" % m] = i
+                    decl["gboxN.%s" % m] = i
         flat["decl"] = decl
+        flat["inst"] = {fn: FIXED_INST.get(fn, "") for fn in list(flat["funcs"]) + list(decl)}
         flat["noenter"] = sorted(self.decl[n] for n, f_ in self.funcs.items() if getattr(f_, "noenter", False) and n in self.decl)
         flat["main"] = "main"
         flat["meta"] = self.meta
@@ -640,7 +658,12 @@ class Prog:
             elif k == "mkiface":
                 a = self._use(f, code, s["a"]); d, post = self._def(f, code, s["d"])
                 impl = s["impl"]
-                if impl == "valT":
+                if impl in GENERIC_IMPLS:
+                    ln = self._line("%s%s = %s{s: %s}" % (tab, s["d"], GENERIC_IMPLS[impl], argtxt([s["a"]])[0]))
+                    f.ntmp += 1; t = "%%i%d" % f.ntmp
+                    code.append(I("mkstruct", d=t, a=[a], ds=[impl, "s"]))
+                    code.append(I("box", d=d, a=[t], s=impl))
+                elif impl == "valT":
                     ln = self._line("%s%s = valT{v: %s}" % (tab, s["d"], argtxt([s["a"]])[0]))
                     f.ntmp += 1; t = "%%i%d" % f.ntmp
                     code.append(I("mkstruct", d=t, a=[a], ds=["valT", "v"]))
@@ -831,11 +854,21 @@ FIXED_METHOD_CODE = {
     "impB.get": _getter("v"), "impB.put": _putter("v"),
     "valT.get": {"params": ["r"], "frees": [], "named": [], "results": ["D"], "code": [I("enter"), I("field", d="%v", a=["r"], s="v"), I("ret", a=["%v"])]},
     "valT.put": {"params": ["r", "x"], "frees": [], "named": [], "results": [], "code": [I("enter"), I("ret")]},
+    # the two instantiations of the generic type gbox[T]: two functions, ONE declaration
+    "gboxS.get": {"params": ["r"], "frees": [], "named": [], "results": ["D"], "code": [I("enter"), I("field", d="%v", a=["r"], s="s"), I("ret", a=["%v"])]},
+    "gboxS.put": {"params": ["r", "x"], "frees": [], "named": [], "results": [], "code": [I("enter"), I("ret")]},
+    "gboxN.get": {"params": ["r"], "frees": [], "named": [], "results": ["D"], "code": [I("enter"), I("field", d="%v", a=["r"], s="s"), I("ret", a=["%v"])]},
+    "gboxN.put": {"params": ["r", "x"], "frees": [], "named": [], "results": [], "code": [I("enter"), I("ret")]},
 }
+# type arguments of the instantiated functions (the real analysis distinguishes them although they share a declaration)
+FIXED_INST = {"gboxS.get": "string", "gboxS.put": "string", "gboxN.get": "int", "gboxN.put": "int"}
+GENERIC_IMPLS = {"gboxS": "gbox[string]", "gboxN": "gbox[int]"}
 FIXED_METHODS = {
     "*impA": {"get": "impA.get", "put": "impA.put"},
     "*impB": {"get": "impB.get", "put": "impB.put"},
     "valT": {"get": "valT.get", "put": "valT.put"},
+    "gboxS": {"get": "gboxS.get", "put": "gboxS.put"},
+    "gboxN": {"get": "gboxN.get", "put": "gboxN.put"},
 }
 
 
@@ -845,6 +878,8 @@ FLAT_TYPES = {
     "impA": [["v", "D"]],
     "impB": [["w", "D"], ["v", "D"]],
     "valT": [["v", "D"]],
+    "gboxS": [["s", "D"], ["z", "D"]],
+    "gboxN": [["s", "D"], ["z", "D"]],
 }
 
 
